@@ -25,7 +25,9 @@ SPEC = Spec(
          "MustRefuse, GC calls, lastGCDone. non-trivial = a GC ran or the mode changed at least twice. thorough adds every abstract history "
          "of length <=4 over region{below,soft,hard} x gc-helps x dt{short,between,long}. refcount: start/shutdown/tick sequences (1-16 ops, "
          "any number of sharers) on one real MemoryLimiter under synctest; after each op 1.5 check intervals pass with a scripted reading "
-         "and we observe whether memory was read and MustRefuse afterwards (the ticker-driven loop, model Sys.step); panics of "
+         "and we observe whether memory was read and MustRefuse afterwards (the ticker-driven loop, model Sys.step); right after every start / shutdown - "
+         "before any time passes - MustRefuse is observed again: no reading was taken, so it must still be the verdict of the most recent "
+         "measurement (Go viol + Lean oracle checkMode, signature C18/shared/refusal-changed-without-a-measurement/<op>); panics of "
          "Start/Shutdown are recovered inside the bubble and reported with the case as replay; corpus: start,shutdown,start; two and "
          "three sharers leaving one by one. processor: the four processors created by the real factory from one config share "
          "one limiter; readings scripted via memorylimiter.ReadMemStatsFn, CheckMemLimits called directly, 4-15 consumes against a recording "
@@ -34,8 +36,10 @@ SPEC = Spec(
          "corpus of every signal x every shape x both modes x downstream ok/error/permanent (120 consumes each), random cases send a "
          "zero-item payload in 1/3 of the consumes (stat zero_item_payloads_forwarded); observed besides the result: the deltas of the "
          "processor's accepted/refused counters and processorhelper's incoming/outgoing items (componenttest.Telemetry), compared with "
-         "consumeFull; the clauses of each call are judged by the Lean oracle checkConsume (tr oc lines); non-trivial = both refused and "
-         "accepted consumes. extension: MustRefuse after "
+         "consumeFull; the clauses of each call are judged by the Lean oracle checkConsume (tr oc lines); sharers shut down in the middle of a case (op "
+         "stopsharer, no measurement) and steps that feed without a new CheckMemLimits: every LIVE processor is then fed and must answer "
+         "with the verdict of the most recent measurement (the model's `refusing` input is that verdict, not the implementation's flag); "
+         "corpus: sharers leave one by one while refusing (case 0) / accepting (case 1); non-trivial = both refused and accepted consumes. extension: MustRefuse after "
          "each of 8 scripted checks. distinct = sha1 of op lines.",
     trusted_base=[
         "Lean 4.33.0 kernel; axioms per theorem listed under axioms_per_theorem (subset of propext, Classical.choice, Quot.sound)",
